@@ -23,6 +23,7 @@ def run(ctx, rep):
                "threading.Lock.release() on a held lock does not raise",
                "interleavings themselves are not enumerated (DESIGN section 4)")
 
+    K.connection_state(ctx, rep, "R12.7", ["_send_queue", "_sendlock"])
     # the write layer: the one Connection method that writes the channel (named _send on the pinned tree)
     conn = ctx.cls(K.CONN)
     writers = [m for m in conn.methods.values() if A.find_calls(m.node, "self._channel.send")]
@@ -360,6 +361,5 @@ def run(ctx, rep):
                     ok = True
                     why = "the enqueued value is the result of brine.dump for this call"
                 rep.ob("R12.6", "Connection send layer: what is enqueued is an encoded message of the caller", ok, why, ctx.loc(a))
-    K.connection_state(ctx, rep, "R12.7", ["_send_queue", "_sendlock"])
     from . import hygiene as H
     H.no_lock_across_send(ctx, rep, "R12.8", K.CONN, {"_send", "_send_raw", "_async_request", "async_request", "sync_request"})
